@@ -231,7 +231,7 @@ def parse_extract_args(line):
             cnt = None
             i += 2
             if i + 1 < len(lex) and lex[i + 1].startswith("#"):
-                cnt = int(lex[i + 1][1:])
+                cnt = -1 if lex[i + 1] == "#?" else int(lex[i + 1][1:])     # `#?`: zero or one occurrence
                 i += 1
             opts["rewrites"].append((pat, rep, cnt))
         else:
@@ -256,7 +256,10 @@ def ensure_expanded():
             if f.endswith(".rs"):
                 newest = max(newest, os.path.getmtime(os.path.join(root, f)))
     newest = max(newest, os.path.getmtime(os.path.join(REPO, "Cargo.toml")))
-    if os.path.exists(EXPANDED) and os.path.getmtime(EXPANDED) >= newest and os.path.getsize(EXPANDED) > 1000:
+    key = "%s %.6f" % (os.path.realpath(REPO), newest)
+    keyfile = EXPANDED + ".key"
+    if os.path.exists(EXPANDED) and os.path.getsize(EXPANDED) > 1000 and os.path.exists(keyfile) and open(keyfile).read() == key \
+            and os.path.getmtime(EXPANDED) >= newest:
         return
     os.makedirs(BUILD, exist_ok=True)
     env = dict(os.environ)
@@ -268,6 +271,8 @@ def ensure_expanded():
         raise UnitError("macro expansion failed: " + p.stderr[-400:])
     with open(EXPANDED, "w") as f:
         f.write(p.stdout)
+    with open(keyfile, "w") as f:
+        f.write(key)
 
 
 def load_tokens(file_):
